@@ -128,10 +128,35 @@ class World:
 
 def scenario(rng, w):
     """structured multi-step histories that random choice rarely assembles"""
-    kind = rng.choice(["reconfirm", "hostchange", "aba", "reprobe-update"])
+    kind = rng.choice(["reconfirm", "hostchange", "aba", "reprobe-update", "late-conflicts", "late-conflicts", "reprobe-conflict-update"])
+    if kind == "reprobe-conflict-update":
+        w.conflict_host_exact()     # registers under the -2 candidate first, so that the re-probe half an hour later changes the hostname
     w.lines.append("ADV 2000")
     w.now = 2000
     w.update()
+    if kind == "reprobe-conflict-update":
+        # the hostname changes at the 30-minute re-probe: the provider re-probes the name it serves; a peer defends that name
+        # and then update() repeats the requested name while the probe for the next candidate is pending
+        w.settle()
+        w.now = 1802000
+        w.lines.append("ADV %d" % w.now)
+        w.hk = 1
+        w.now = 1804000
+        w.lines.append("%s %d" % (rng.choice(["ADV", "LATE"]), w.now))
+        if rng.random() < 0.5:
+            w.now += rng.choice([1, 500, 1500])
+            w.lines.append("ADV %d" % w.now)
+        if rng.random() < 0.8:
+            w.conflict_service_exact()
+        if rng.random() < 0.5:
+            w.now += rng.choice([1, 400])
+            w.lines.append("ADV %d" % w.now)
+        w.update(same=True)
+        if rng.random() < 0.3:
+            w.conflict_service_exact()
+        w.settle()
+        w.query()
+        return
     if kind == "reconfirm":
         # the requested name is defended: confirmed as -2; a later update asks for the same name again
         w.conflict_service_exact()
@@ -141,6 +166,14 @@ def scenario(rng, w):
         if rng.random() < 0.8:
             w.conflict_service_exact()
         w.settle()
+    elif kind == "late-conflicts":
+        # each candidate's owner answers late in that candidate's own 2 s window: every probe needs a full wait of its own
+        for _ in range(rng.choice([1, 2, 2, 3])):
+            w.now += rng.choice([300, 1000, 1500, 1700, 1999])
+            w.lines.append("%s %d" % (rng.choice(["ADV", "ADV", "ADVB"]), w.now))
+            w.conflict_service_exact()
+        w.settle()
+        w.query()
     elif kind == "hostchange":
         w.settle()
         w.now = 1802000 + rng.choice([0, 1, 1000])
